@@ -60,7 +60,12 @@ def send (st : St) (kind : Kind) (svc : Nat) (sid : Option Sid) : Req × St :=
   (r, { st with script := st.script.tail, nextSid := if grants && fresh then st.nextSid + 1 else st.nextSid,
                 rtrace := .req r :: st.rtrace })
 
-def sortSids (l : List Sid) : List Sid := l.mergeSort (fun a b => decide (a ≤ b))
+/-- insertion sort (structural, so that it also reduces in the kernel) -/
+def insertSid (a : Sid) : List Sid → List Sid
+  | [] => [a]
+  | b :: r => if a ≤ b then a :: b :: r else b :: insertSid a r
+
+def sortSids (l : List Sid) : List Sid := l.foldr insertSid []
 
 def St.snap (st : St) : St :=
   st.emit (.snap st.now (keys st.subs) (sortSids (keys st.routed)) st.task.alive st.avail)
